@@ -55,7 +55,7 @@ def main():
             caught = []
             for cid in checks:
                 p = subprocess.run(
-                    [sys.executable, str(VERIF / "check.py"), cid, "--tier", args.tier],
+                    [sys.executable, str(VERIF / "check.py"), cid, "--tier", m.get("tier", args.tier)],
                     env=env, capture_output=True, text=True, cwd=str(VERIF),
                 )
                 sigs = [l.strip() for l in p.stdout.splitlines() if l.strip().startswith("signature:")]
